@@ -1,10 +1,13 @@
 mod c06;
 mod c10;
+mod c15;
+mod c16;
 mod c20;
 mod common;
 mod crash;
 mod e2;
 mod e4;
+mod e5;
 mod e6;
 mod http;
 mod model;
@@ -84,6 +87,24 @@ fn check(prop: &str, tier: &str) -> i32 {
             c10::run(tier, &mut r);
             r.finish()
         }
+        "C15" => {
+            let mut r = Report::new(prop, tier, "model_checking");
+            r.assumptions = vec![
+                "nushell is explored through, not modelled; the serve loop's own schedule is the OS's (programs are enumerated, schedules are C03/C16's)".into(),
+                "return values of types whose rendering the statement does not fix (binary, date, duration, closures) are outside the grammar".into(),
+            ];
+            c15::run(tier, &mut r);
+            r.finish()
+        }
+        "C16" => {
+            let mut r = Report::new(prop, tier, "model_checking");
+            r.assumptions = vec![
+                "start-up race: scheduling points are the verif hooks in Handler::spawn; the handler's own Store::read runs free".into(),
+                "lifecycle histories: the serve loops' schedule is the OS's; absence of an answer is decided after all expected answers arrived plus a 40 ms grace period".into(),
+            ];
+            c16::run(tier, &mut r);
+            r.finish()
+        }
         "C12" => {
             let mut r = Report::new(prop, tier, "model_checking");
             r.assumptions = vec![
@@ -124,6 +145,8 @@ fn main() {
                 "e4" => e4::worker(),
                 "e6" => e6::worker(),
                 "c06" => c06::worker(),
+                "c15" => c15::worker(),
+                "c16" => c16::worker(),
                 _ => usage(),
             }
             0
@@ -153,6 +176,8 @@ fn main() {
                     c10::run("quick", &mut r);
                     if r.violations.is_empty() { 0 } else { 1 }
                 }
+                "c15" => c15::replay(rp),
+                "c16" => c16::replay(rp),
                 "e3" => {
                     let mut r = Report::new("C04", "quick", "fault_enumeration");
                     crash::run(rp["tier"].as_str().unwrap_or("quick"), &mut r);
